@@ -17,8 +17,15 @@ pub fn atol() -> f64 {
         1e-12
     }
 }
-/// largest magnitude for which sums of integer/dyadic data are exact in the build's float type
-pub const EXACT_LIMIT: f64 = 4194304.0; // 2^22
+/// Largest magnitude for which sums of "exact" data (integers, see `is_exact_value`) are exact in the build's
+/// float type whatever the order of summation: 2^23 in f32 (24-bit mantissa, one bit to spare), 2^52 in f64.
+pub fn exact_limit() -> f64 {
+    if IS_F32 {
+        8388608.0
+    } else {
+        4503599627370496.0
+    }
+}
 
 /// returned by `diff_array` when the reference cannot bound its own rounding error: the case is discarded
 pub const UNDECIDABLE: &str = "UNDECIDABLE: non-finite magnitude in the reference";
@@ -47,7 +54,7 @@ pub fn diff_array(got: &Array, dims: &[usize], want: &[f64], mags: &[f64], exact
         // an overflowing magnitude would make the tolerance infinite, i.e. the comparison vacuous
         return Some(UNDECIDABLE.to_string());
     }
-    let exact = exact && mags.iter().all(|m| m.abs() < EXACT_LIMIT);
+    let exact = exact && mags.iter().all(|m| m.abs() < exact_limit());
     for i in 0..want.len() {
         if !close(gv[i] as f64, want[i], mags[i], exact) {
             return Some(format!(
